@@ -1,5 +1,7 @@
 import FemtoVerif.Driver.C11
 import FemtoVerif.Driver.Gc
+import FemtoVerif.Driver.C02
+import FemtoVerif.Driver.C13
 open Lean
 
 namespace Femto.Driver
@@ -15,6 +17,8 @@ def dispatch (op : String) (j : Json) : Except String Json :=
   | "gc.fmt" => GcD.gcFmt j
   | "ctl.repr" => GcD.ctlRepr j
   | "c01.check" => GcD.c01Check j
+  | "c02.transform" => C02.transform j
+  | "c13.count" => C13.count j
   | _ => .error s!"unknown op {op}"
 
 def handleLine (line : String) : String :=
